@@ -88,9 +88,9 @@ def e1_tasks(plan, seed):
     tasks = []
     for wi, (spec, depth, ext) in enumerate(plan):
         d = len(spec["shape"])
-        nmenu = len(K.menu(spec["kind"], tuple(spec["shape"]), ext, True))
         split = depth >= 3 or (depth == 2 and d >= 3)
         if split:
+            nmenu = len(K.menu(spec["kind"], tuple(spec["shape"]), ext, True))
             for fi in range(nmenu):
                 tasks.append((wi, spec, depth, ext, fi, seed))
         else:
@@ -158,6 +158,10 @@ def _canon_key(k):
 def _approx_worker(case):
     K, O, A = _mods()
     probs, info = A.check(case)
+    if any(k.endswith("hang") for k, _ in probs):
+        # a CPU-time guard fired: believed only if it fires again (a deterministic non-termination always does;
+        # a collector pause or an accounting glitch of an overloaded machine does not)
+        probs, info = A.check(case)
     return case, [(_canon_key(k), m) for k, m in probs], info
 
 
@@ -179,6 +183,10 @@ def run(ctx):
     tasks = e1_tasks(plan, seed)
     # long tasks first inside pmap's contiguous chunks would unbalance the pool; interleave by cost instead
     ctx.log("part A: %d walks, %d tasks" % (len(plan), len(tasks)))
+    # the forked workers inherit the parent's heap: keep the collector from traversing (and un-sharing) it
+    import gc
+    gc.collect()
+    gc.freeze()
     res = par.pmap(_e1_worker, tasks, chunk=4 if len(tasks) < 20000 else 16)
     fams = {}
     per_walk = {}
@@ -246,7 +254,16 @@ def run(ctx):
     # ---------------- part C --------------------------------------------------------------------
     cases = A.cases(ctx.tier, seed)
     # the zero-tensor cases may burn their CPU guard: start them first
-    cases.sort(key=lambda c: (0 if c.get("fam") == "zero" and c["what"] == "greedy" else 1, c["cid"]))
+    slow = [c for c in cases if c.get("fam") == "zero" and c["what"] == "greedy"]
+    rest = [c for c in cases if not (c.get("fam") == "zero" and c["what"] == "greedy")]
+    cases, k = [], 0
+    while k < len(rest):                     # one slow case at the head of each of the first chunks of 8
+        take = 7 if slow else 8
+        if slow:
+            cases.append(slow.pop(0))
+        cases += rest[k:k + take]
+        k += take
+    cases += slow
     cres = par.pmap(_approx_worker, cases, chunk=8)
     for case, probs, info in cres:
         out.evaluations += 1
